@@ -326,6 +326,17 @@ def parse_dot(source: str):
     return nodes, edges
 
 
+def parse_dot_node_labels(source: str) -> dict:
+    """-> {node ident: label attribute} (nodes written more than once: the last one, as graphviz reads it)"""
+    out = {}
+    for line in source.splitlines():
+        m = DOT_LINE.match(line)
+        if m and m.group(2) is None and m.group(1) not in ("graph", "node", "edge"):
+            lb = re.search(r'\blabel=("(?:[^"\\]|\\.)*"|\S+)', m.group(3) or "")
+            out[_unq(m.group(1))] = _unq(lb.group(1)) if lb else None
+    return out
+
+
 ROW_RE = re.compile(r'<tr>(?:(?!</tr>).)*class="node"(?:(?!</tr>).)*</tr>', re.S)
 ROW_NODE_RE = re.compile(r'class="node" bgcolor="[^"]*">(?:<a href="[^"]*">)?(.*?)(?:</a>)?</td>', re.S)
 ROW_STYLE_RE = re.compile(r'<td class="(solid|dashed)(?:Bottom|Text)">')
@@ -367,6 +378,7 @@ def observe(graph, tab: Table | None):
         "labels": {n: None for n in ()},
         "shown": shown, "rows": rows, "file": f"{graph.imgfile}.gv", "nroots": len(graph.root),
         "edge_labels": sorted((t, h, lb) for t, h, _, lb in edges if lb is not None),
+        "node_labels": parse_dot_node_labels(graph.dot.source),
     }
 
 
@@ -1707,7 +1719,7 @@ def names_obs(obs: dict, tab: Table) -> dict:
             "dot_nodes": [nm(x) for x in o["dot_nodes"]], "added": [nm(x) for x in o["added"]],
             "edges": [(nm(t), nm(h), s) for t, h, s in o["edges"]], "truncated": o["truncated"],
             "shown": o["shown"], "rows": o["rows"], "file": o["file"], "nroots": o["nroots"],
-            "edge_labels": o["edge_labels"],
+            "edge_labels": o["edge_labels"], "node_labels": o["node_labels"],
         }
     return out
 
@@ -1973,6 +1985,103 @@ def idx_s(ident: str, ents, named, k):
 
 
 # --------------------------------------------------------------------------
+# labels of procedure nodes (round 6): `ProcNode.__init__` against `procLabel` (driver `c13.proclabel`)
+# --------------------------------------------------------------------------
+
+
+def label_inputs(sf, obj, node) -> dict:
+    """what `ProcNode.__init__` reads for the label of the node of `obj`, besides `self.name` (left by
+    `BaseNode.__init__`, not modelled): the scope and the type the procedure is bound to"""
+    if isinstance(obj, sf.FortranBoundProcedure):
+        binder = getattr(obj, "parent", None)
+        parent = getattr(binder, "parent", None)
+    else:
+        parent = getattr(obj, "parent", None)
+        binder = getattr(getattr(obj, "binding", None), "parent", None)
+    return {"name": node.name, "parent": parent.name if parent else None, "binder": binder.name if binder else None}
+
+
+def proclabel_request(show_parent: bool, li: dict) -> list:
+    return ["c13.proclabel", "1" if show_parent else "0", "0" if li["parent"] is None else "1",
+            "0" if li["binder"] is None else "1", li["name"], li["parent"] or "-", li["binder"] or "-"]
+
+
+def observe_proc_labels(gm, tab: Table, sf) -> list:
+    """[(ident, inputs of the label, label the real node carries)] for every procedure node"""
+    out = []
+    for obj, node in gm.data.procedures.items():
+        out.append((node.ident, label_inputs(sf, obj, node), node.attribs.get("label")))
+    return out
+
+
+def compare_proc_labels(show_parent: bool, proc_obs: list, obs: dict, resps: list) -> list[str]:
+    diffs, model = [], {}
+    for (ident, li, real), resp in zip(proc_obs, resps):
+        if not resp or resp[0] != "ok":
+            diffs.append(f"label of {ident}: model answered {resp}")
+            continue
+        m = resp[1] if len(resp) > 1 else ""
+        model[ident] = m
+        if m != real:
+            diffs.append(f"label of the node {ident} (show_proc_parent={show_parent}, read {li}): model {m!r} impl {real!r}")
+    for label, o in obs.items():
+        for ident, lb in o["node_labels"].items():
+            if ident in model and lb != model[ident]:
+                diffs.append(f"{label}: the DOT source labels {ident} {lb!r}, model {model[ident]!r}")
+                break
+    return diffs
+
+
+def micro_proclabels(ford, drv, rng, n, rep):
+    """the real `ProcNode.__init__` (real `GraphData`, both values of `show_proc_parent`) on stub procedures and
+    type-bound procedures with and without a scope, a type, a binding that names them; names collide on purpose"""
+    import types as pytypes
+
+    import ford.graphs as G
+    import ford.sourceform as sf
+    from translate import c13 as T
+
+    probe = T._CtorProbe(ford)
+    reqs, cases = [], []
+    hist = {"bound": 0, "named-by-binding": 0, "no-scope": 0, "show_proc_parent": 0, "by-name-only": 0}
+    nm = lambda: rng.choice(["run", "go", "a", "b", "m0", "t0", "init_x", "p1"])  # noqa
+    for _ in range(n):
+        sp = rng.random() < 0.5
+        gd = G.GraphData("..", False, sp)
+        hist["show_proc_parent"] += sp
+        x = rng.random()
+        if x < 0.1:
+            obj = sf.ExternalSubroutine(nm())
+            hist["by-name-only"] += 1
+        elif x < 0.45:
+            scope = None if rng.random() < 0.15 else pytypes.SimpleNamespace(name=nm(), parent=None, visible=True)
+            typ = None if rng.random() < 0.1 else pytypes.SimpleNamespace(name=nm(), parent=scope, visible=True)
+            obj = probe.stub(sf.FortranBoundProcedure, name=nm(), parent=typ)
+            hist["bound"] += 1
+        else:
+            scope = None if rng.random() < 0.2 else pytypes.SimpleNamespace(name=nm(), parent=None)
+            obj = probe.stub(rng.choice([sf.FortranSubroutine, sf.FortranFunction]), name=nm(), parent=scope)
+            if rng.random() < 0.4:
+                typ = None if rng.random() < 0.2 else pytypes.SimpleNamespace(name=nm())
+                obj.binding = pytypes.SimpleNamespace(parent=typ, name=nm())
+                hist["named-by-binding"] += 1
+            if scope is None:
+                hist["no-scope"] += 1
+        node = gd.get_node(obj)
+        li = label_inputs(sf, obj, node)
+        reqs.append(proclabel_request(sp, li))
+        cases.append(dict(show_proc_parent=sp, read=li, impl=node.attribs.get("label"),
+                          cls=type(obj).__mro__[1].__name__))
+    bad = 0
+    for c, resp in zip(cases, drv.batch(reqs)):
+        if resp[0] != "ok" or (resp[1] if len(resp) > 1 else "") != c["impl"]:
+            bad += 1
+            rep.tie_broken(f"correspondence micro/procedure labels: model {resp} impl {c['impl']!r} for {c['read']} "
+                           f"(show_proc_parent={c['show_proc_parent']})", dict(c, stream="micro-proclabels", model=resp))
+    return len(reqs), bad, hist
+
+
+# --------------------------------------------------------------------------
 # fixed witnesses of the known findings (met on every run)
 # --------------------------------------------------------------------------
 
@@ -2075,9 +2184,19 @@ def run_case(ford, drv, d: Path, A: Abs | None, files: dict, opts: dict):
         out["corr"] = compare(tab, node_obs, obs, resp)
         out.pop("settle", None)
 
+    import ford.sourceform as sf_
+    show_parent = bool(gm.data.show_proc_parent)
+    proc_obs = observe_proc_labels(gm, tab, sf_)
+    n_comp_reqs = len(out["label_reqs"])
+    raw_obs = {label: {"node_labels": o["node_labels"]} for label, o in obs.items()}
+    out["label_reqs"] = out["label_reqs"] + [(None, proclabel_request(show_parent, li)) for _, li, _ in proc_obs]
+    out["stats"]["proc-labels"] = len(proc_obs)
+    out["stats"]["proc-labels-with-type"] = sum(1 for _, li, _ in proc_obs if li["binder"])
+
     def settle_labels(resps, out=out, tab=tab, label_obs=label_obs, obs=obs):
         # (after `settle`: the differences are appended)
-        out["corr"] = out["corr"] + compare_labels(tab, label_obs, obs, out["label_reqs"], resps)
+        out["corr"] = (out["corr"] + compare_labels(tab, label_obs, obs, out["label_reqs"][:n_comp_reqs], resps[:n_comp_reqs])
+                       + compare_proc_labels(show_parent, proc_obs, raw_obs, resps[n_comp_reqs:]))
         out.pop("settle_labels", None)
     if drv is not None:
         settle(drv.call(*out["request"]))
@@ -2168,7 +2287,9 @@ def run(tier: str, seed: int, replay: str | None = None) -> int:
         # (a stream of its own: the projects and call lists of the earlier rounds stay what they were)
         ev_lab, bad_lab, hist_lab = micro_labels(ford, drv, random.Random(seed * 7919 + 6007),
                                                  1500 if tier == "quick" else 15000, rep)
-        ev_micro, bad_micro = ev_micro + ev_lab, bad_micro + bad_lab
+        ev_pl, bad_pl, hist_pl = micro_proclabels(ford, drv, random.Random(seed * 7919 + 6011),
+                                                  3000 if tier == "quick" else 30000, rep)
+        ev_micro, bad_micro = ev_micro + ev_lab + ev_pl, bad_micro + bad_lab + bad_pl
         with common.scratch_dir() as d:
             graphviz.Digraph.pipe = fake_pipe
             variants = decide_variant(ford, d / "v")
@@ -2241,7 +2362,8 @@ def run(tier: str, seed: int, replay: str | None = None) -> int:
         project_feature_histogram=dict(sorted(feats.items())),
         graph_histogram=dict(sorted(stats.items())),
         composition_labels={"micro_cases": ev_lab, "micro_histogram": hist_lab,
-                            "type_nodes_of_projects_compared": n_label_cmp},
+                            "label_requests_for_project_nodes": n_label_cmp},
+        procedure_labels={"micro_cases": ev_pl, "micro_histogram": hist_pl},
     )
     rep.assumptions += [
         "Fortran parsing / correlate (C01, C06-C08) are on the implementation side: the model starts from the entity "
